@@ -502,6 +502,10 @@ class Inputs:
             cols = [np.arange(self.offs[b], self.offs[b + 1]) for b in range(nb)]
             if w["herm"]:
                 self.vecs = tuple(np.ascontiguousarray(R[:, c]) for c in cols)
+                if w.get("sparse_vecs") and w["domain"] == "dense":
+                    from scipy import sparse
+
+                    self.vecs = tuple(sparse.csr_array(v) for v in self.vecs)  # eigenvectors handed over as sparse arrays
             else:
                 self.vecs = tuple((np.ascontiguousarray(R[:, c]), np.ascontiguousarray(L[:, c])) for c in cols)
         # blocks for the blocked format
@@ -708,7 +712,9 @@ class Sim:
         if fmt in ("scalar_vecs", "implicit"):
             self.kw["subspace_eigenvectors"] = inp.vecs
         elif fmt not in ("blocked", "nested"):
-            self.kw["subspace_indices"] = inp.idx
+            kind = world.get("idx_type", "array")
+            self.kw["subspace_indices"] = (tuple(int(k) for k in inp.idx) if kind == "tuple"
+                                           else [int(k) for k in inp.idx] if kind == "list" else inp.idx)
         self.user_series = [self.H] if self.h_is_series else []
         if getattr(self, "h_root", None) is not None and self.h_root is not self.H:
             self.user_series.append(self.h_root)
@@ -820,6 +826,8 @@ class Sim:
                     from pymablock import operator_to_BlockSeries
 
                     okw = {k: v for k, v in self.kw.items() if k in ("subspace_indices", "subspace_eigenvectors", "symbols")}
+                    if self.w.get("op_name"):
+                        okw["name"] = "H_caller"
                     Hb = operator_to_BlockSeries(self.H, hermitian=bool(spec["herm"]), **okw)
                 derived["d1"] = cauchy_dot_product(Ui, Hb, U, operator=env.mm)
         self.comps[c] = {"out": out, "derived": derived}
@@ -1579,7 +1587,8 @@ class GraphProp:
              "p_sparse": r.choice([0.0, 0.3, 0.5, 0.7]) if domain == "sparse" else 0.0,
              "sparse_fmts": r.choice([["csr"], ["csr"], ["csc"], ["coo", "csr"], ["csr", "dia", "csc"]]) if domain == "sparse" else None,
              "atol": r.choice([None, None, None, 1e-10, 1e-14]), "stored_zeros": bool(domain == "sparse" and r.random() < 0.4),
-             "view_input": r.random() < 0.15, "h_recur": r.random() < 0.15, "sectors": bool(nb >= 3 and domain in ("dense", "sparse") and r.random() < 0.25),
+             "view_input": r.random() < 0.15, "h_recur": r.random() < 0.15,
+             "idx_type": r.choice(["array", "array", "tuple", "list"]), "sparse_vecs": r.random() < 0.3, "op_name": r.random() < 0.3, "sectors": bool(nb >= 3 and domain in ("dense", "sparse") and r.random() < 0.25),
              "cap": profile.get("max_total", {1: 4, 2: 3, 3: 2})[npert] if domain != "sym" else 3}
         if fmt == "scalar_vecs":
             w["real"] = False
